@@ -510,7 +510,9 @@ class ProgGen:
                 v = rng.choice(VAR_NAMES)
                 opts["kwargs"] = {v: ["var", v]}
         r = rng.random()
-        if self.flavour == "scope" and rng.random() < 0.15:
+        if self.flavour == "scope" and rng.random() < 0.15 and not self.in_between:
+            # (not inside a fill under a with/for between tag and fill: there the merged captured layer is forwarded
+            # as "the loop layer" - listed findings C03-loop-layer-forwarded... x C03-fill-captured-layer-placement)
             # `only` isolates one component: its template sees only its own data and its fills are lexically scoped
             opts["only"] = True
             self.features.add("only")
@@ -577,15 +579,27 @@ class ProgGen:
                     # slot's own default content (rendered through the default alias) must not see the aliases
                     if data_alias and rng.random() < 0.5:
                         data_alias = rng.choice(VAR_NAMES)
-                    if default_alias and rng.random() < 0.3:
-                        default_alias = rng.choice([v for v in VAR_NAMES if v != data_alias])
-                        self.features.add("default-alias-named-like-variable")
+                    # (the default alias keeps a name of its own: when it is named like a variable, every component
+                    # template rendered inside the fill that reads that name expands the default content, and a
+                    # difference inside such an expansion cannot be attributed token by token to the listed
+                    # finding C03-fill-captured-layer-placement; alias reads inside nested component bodies are
+                    # produced by nested_bodies() instead)
                 if default_alias and self.in_between:
                     self.features.add("default-alias-under-between-binding")
                 floops = loops + ([site_loop] if site_loop else [])
                 body = self.gen_nodes(budget, depth + 1, in_comp, True, allowed, floops) if rng.random() < 0.9 else []
                 if data_alias:
-                    body.append(["dataref", data_alias, "k"])
+                    tgt = body
+                    if rng.random() < 0.3 and data_alias not in VAR_NAMES:
+                        # slot data read further in: inside the body / a fill of a component written in this fill
+                        # (an alias named like a variable is only read directly in its fill: further in, a captured loop
+                        # copy of that name beating it is the listed finding C03-fill-captured-layer-placement, which
+                        # the token-level classifier cannot attribute for alias.key reads)
+                        places = self.nested_bodies(body)
+                        if places:
+                            tgt = rng.choice(places)
+                            self.features.add("data-alias-read-in-nested-component-body")
+                    tgt.append(["dataref", data_alias, "k"])
                 if default_alias:
                     # read the alias directly in the fill, or further in: inside the body / a fill of a component that
                     # is itself written in this fill (the slot's original content passed on to another component)
